@@ -1,20 +1,27 @@
 #!/bin/sh
 # Developer tool: apply every behaviour-preserving twin in /verif/twins to a scratch worktree of /repo's head and
-# require all checks to stay silent (exit 0).  usage: tools/run_twins.sh
+# require all checks to stay silent (exit 0).  usage: tools/run_twins.sh [jobs]   (twins run in parallel, default 12)
 cd /verif || exit 3
-rc=0
-for t in twins/*.diff; do
-  w=/tmp/twin_wt_$$
-  git -C /repo worktree add -q --detach "$w" HEAD || exit 3
+J=${1:-12}
+one() {
+  t="$1"
+  w=/tmp/twin_wt_$$_$(basename "$t" .diff)
+  git -C /repo worktree add -q --detach "$w" HEAD || { echo "TWIN-SETUP-FAILED $t"; return; }
   if git -C "$w" apply "/verif/$t"; then
     for id in C01 C02 C03 C04 C05 C06 C07 C08 C09 C10 C11 C12 C13 C14 C16 C17 C18 C19 C20; do
-      ./check "$id" --repo "$w" --no-evidence > /tmp/twin_$$.log 2>&1 || { echo "TWIN-FIRED $t $id"; grep -E "VIOLATION|ANALYSIS-ERROR|\[C" /tmp/twin_$$.log | head -3; rc=1; }
+      ./check "$id" --repo "$w" --no-evidence > "$w.log" 2>&1 || { echo "TWIN-FIRED $t $id"; grep -E "VIOLATION|ANALYSIS-ERROR|\[C" "$w.log" | head -3; }
     done
   else
-    echo "TWIN-DOES-NOT-APPLY $t"; rc=1
+    echo "TWIN-DOES-NOT-APPLY $t"
   fi
   git -C /repo worktree remove --force "$w"
+  rm -f "$w.log"
   echo "twin $t done"
-done
-rm -f /tmp/twin_$$.log
-exit $rc
+}
+if [ -n "$TWIN_ONE" ]; then one "$TWIN_ONE"; exit 0; fi
+out=/tmp/twins_$$.out
+ls twins/*.diff | TWIN_PARENT=$$ xargs -P "$J" -I{} env TWIN_ONE={} sh "$0" > "$out" 2>&1
+cat "$out"
+if grep -qE "TWIN-FIRED|TWIN-DOES-NOT-APPLY|TWIN-SETUP-FAILED" "$out"; then rm -f "$out"; exit 1; fi
+rm -f "$out"
+exit 0
